@@ -3,7 +3,7 @@
 
 namespace cl
 {
-struct Entry { int term = -1; int len = 1; int mode = 0; };     // mode 0: fixed length (clipped to the remaining input) ; 1: run of the same byte, at most len
+struct Entry { int term = -1; int len = 1; int mode = 0; };     // mode 0: fixed length (clipped to the remaining input) ; 1: run of the same byte, at most len ; 2: run of the same byte, unlimited
 struct Script { std::array<Entry, 256> by_byte; };
 struct LexCall { size_t remaining; uint32_t line, col; };
 inline thread_local const Script* g_script = nullptr;
@@ -14,15 +14,20 @@ inline size_t script_len(const Script& s, const char* p, size_t rem)
     const Entry& e = s.by_byte[(unsigned char)*p];
     size_t len = size_t(e.len);
     if (e.mode == 1) { size_t k = 1; while (k < rem && k < len && p[k] == p[0]) ++k; return k; }
+    if (e.mode == 2) { size_t k = 1; while (k < rem && p[k] == p[0]) ++k; return k; }
     return len > rem ? rem : len;
 }
+
+// length of [start, end): O(1) where the iterator type can be subtracted, by stepping otherwise
+template<class It> auto remaining(It start, It end, int) -> decltype(size_t(end - start)) { return size_t(end - start); }
+template<class It> size_t remaining(It start, It end, long) { size_t n = 0; for (; !(start == end); ++start) ++n; return n; }
 
 struct Scripted
 {
     template<typename Iterator, typename ErrorStream>
     constexpr ctpg::recognized_term match(ctpg::match_options, ctpg::source_point sp, Iterator start, Iterator end, ErrorStream&)
     {
-        size_t rem = 0; for (Iterator it = start; !(it == end); ++it) ++rem;
+        size_t rem = remaining(start, end, 0);
         if (g_calls) g_calls->push_back(LexCall{rem, sp.line, sp.column});
         if (rem == 0 || !g_script) return ctpg::recognized_term{};
         char first = *start;
@@ -30,6 +35,7 @@ struct Scripted
         if (e.term < 0) return ctpg::recognized_term{};
         size_t len = size_t(e.len);
         if (e.mode == 1) { size_t k = 1; Iterator it = start; ++it; while (k < rem && k < len && *it == first) { ++k; ++it; } len = k; }
+        else if (e.mode == 2) { size_t k = 1; Iterator it = start; ++it; while (k < rem && *it == first) { ++k; ++it; } len = k; }
         else if (len > rem) len = rem;
         return ctpg::recognized_term(ctpg::size16_t(e.term), len);
     }
@@ -38,7 +44,7 @@ struct Scripted
 
 using TT36L = tpl::T36<tpl::small_limits, ctpg::use_lexer<cl::Scripted>>;
 
-struct CLCase { GCase g; std::vector<std::array<int, 4>> script; };   // entries: byte, term, len, mode
+struct CLCase { GCase g; std::vector<std::array<int, 4>> script; std::vector<std::string> labels; };   // entries: byte, term, len, mode
 
 static cl::Script script_of(const CLCase& c)
 {
@@ -86,7 +92,7 @@ struct P_C18
             if (used.count(b)) return;
             used.insert(b);
             int len = 1 + int(ch.weighted({6, 3, 2, 1}));
-            c.script.push_back({b, term, len, int(ch.below(2))});
+            c.script.push_back({b, term, len, int(ch.weighted({4, 4, 1}))});
         };
         for (int t = 0; t < 6; ++t) { add(t); if (ch.chance(1, 2)) add(t); }
         eng::Rng rng = ch.fork();
@@ -123,20 +129,32 @@ struct P_C18
             if (rng.chance(1, 8)) in.skip_ws = false;
             c.g.inputs.push_back(in);
         }
+        // occasionally one very long term (length >= 65536: lengths are size_t, not 16 bit) where the script has an unlimited run
+        if (ch.chance(1, 12))
+            for (auto& e : c.script)
+                if (e[3] == 2 && e[0] > 32)
+                {
+                    gg::Input in; std::vector<int> s; if (an.productive[size_t(c.g.g.root)]) ref::derive(c.g.g, an, c.g.g.root, 3, rng, s, 12);
+                    std::string pre, post; bool placed = false;
+                    for (int t : s) { if (!placed && t == e[1]) { in.text += std::string(65536 + rng.below(5000), char(e[0])); in.text += ' '; placed = true; continue; } if (of_term[size_t(t)].empty()) { in.text += '?'; continue; } in.text += char(of_term[size_t(t)][0]); in.text += ' '; }
+                    if (!placed) in.text = std::string(65536 + rng.below(5000), char(e[0])) + " " + in.text;
+                    c.g.inputs.push_back(in); c.labels.push_back("giant-term");
+                    break;
+                }
         return c;
     }
     static vj::Value to_json(const Case& c)
     {
         vj::Value v = gcase_to_json(c.g); v.set("template", "T36L(use_lexer)");
         vj::Value sc = vj::Value::array();
-        for (auto& e : c.script) { vj::Value x = vj::Value::object(); x.set("byte", e[0]); x.set("term", e[1]); x.set("len", e[2]); x.set("mode", e[3] ? "run" : "fixed"); sc.push(x); }
+        for (auto& e : c.script) { vj::Value x = vj::Value::object(); x.set("byte", e[0]); x.set("term", e[1]); x.set("len", e[2]); x.set("mode", e[3] == 2 ? "run-unlimited" : e[3] ? "run" : "fixed"); sc.push(x); }
         v.set("script", sc);
         return v;
     }
     static Case from_json(const vj::Value& v)
     {
         Case c; c.g = gcase_from_json(v); c.g.tmpl = 0;
-        for (size_t i = 0; i < v.at("script").size(); ++i) { const auto& x = v.at("script").at(i); c.script.push_back({int(x.at("byte").as_int()), int(x.at("term").as_int()), int(x.at("len").as_int()), x.at("mode").as_str() == "run" ? 1 : 0}); }
+        for (size_t i = 0; i < v.at("script").size(); ++i) { const auto& x = v.at("script").at(i); c.script.push_back({int(x.at("byte").as_int()), int(x.at("term").as_int()), int(x.at("len").as_int()), x.at("mode").as_str() == "run-unlimited" ? 2 : x.at("mode").as_str() == "run" ? 1 : 0}); }
         return c;
     }
     static std::vector<Case> shrinks(const Case& c, const vj::Value& d)
@@ -213,7 +231,7 @@ struct P_C18
         cl::g_script = nullptr;
         if (interesting && st.counting && st.nontriv(eng::hcomb(g.hash(), c.g.inputs.size() * 131 + c.script.size())))
         {
-            labels_for(g, pr, st, c.g); st.label("nontrivial");
+            labels_for(g, pr, st, c.g); st.label("nontrivial"); for (auto& l : c.labels) st.label(l);
             std::sort(case_labels.begin(), case_labels.end()); case_labels.erase(std::unique(case_labels.begin(), case_labels.end()), case_labels.end());
             for (auto& l : case_labels) st.label(l);
             if (st.want_sample()) { vj::Value s = vj::Value::object(); s.set("grammar", g.show()); s.set("script", to_json(c).at("script")); s.set("example_input", c.g.inputs.empty() ? std::string() : c.g.inputs.back().text); st.sample(s); }
